@@ -43,6 +43,8 @@ def strategy(tp):
         "body": st.sampled_from(["none", "length", "chunked"]),
         "body_len": st.sampled_from([0, 1, 10, 5000]),
         "mut": st.lists(mutation, min_size=0, max_size=4),
+        # a generated multi-range request over small positions: touching, overlapping, nested, reversed and duplicate specs
+        "range": st.one_of(st.none(), st.none(), st.lists(st.tuples(st.integers(0, 24), st.integers(0, 12)).map(lambda t: [t[0], t[0] + t[1]]), min_size=1, max_size=5)),
         # structure-aware length inflation of one component to a boundary-dense size
         "stretch": st.one_of(st.none(), st.none(), st.tuples(st.sampled_from(["host", "path", "query", "header-value", "header-name", "method", "userinfo"]),
                                                              st.sampled_from([255, 256, 1023, 1024, 1025, 4095, 4096, 8191, 8192, 8193, 12000, 16384, 20000])).map(list)),
@@ -58,6 +60,8 @@ def strategy(tp):
         "segments": st.lists(st.integers(1, 3000), min_size=0, max_size=5),
     })
     return st.fixed_dictionaries({
+        # first make the first URL a cached object (clean 200), so that the adversarial request is answered from the store
+        "precache": st.sampled_from([False, False, True]),
         "requests": st.lists(req, min_size=1, max_size=4),
         "response": resp,
         "client_segments": st.lists(st.integers(1, 2000), min_size=0, max_size=5),
@@ -124,6 +128,8 @@ def build_request(env, path, rq):
         target = "*"
     else:
         target = "http://%s%s" % (hostport, path)
+    if rq.get("range"):
+        extra_headers.append("Range: bytes=" + ",".join("%d-%d" % (a, b) for a, b in rq["range"]))
     lines = ["%s %s %s" % (m, target, rq["version"]), "Host: " + hostport] + list(rq["headers"]) + extra_headers
     body = b""
     if rq["body"] == "length":
@@ -168,6 +174,10 @@ def execute(env, sc):
     raw = mutate(build_response(rs, paths[0]), rs["mut"])
     beh = {"raw_head_b64": base64.b64encode(raw).decode(), "framing": "none", "segments": rs["segments"], "date": False,
            "close": rs["framing"] == "close" or bool(rs["mut"])}
+    if sc.get("precache"):
+        env.origin.script(paths[0], {"status": 200, "headers": [["Cache-Control", "max-age=3600"]], "body_tag": paths[0], "body_len": 5000})
+        fetch(env, paths[0], timeout=15)
+        r.label("precached")
     for p in paths:
         env.origin.script(p, beh)
     env.origin.default_behaviour = dict(beh)
